@@ -18,11 +18,11 @@ HASHES = [
     ("Blake224", {"kind": "Blake", "size": 224}, 64, 28), ("Blake256", {"kind": "Blake", "size": 256}, 64, 32),
     ("Blake384", {"kind": "Blake", "size": 384}, 128, 48), ("Blake512", {"kind": "Blake", "size": 512}, 128, 64),
 ]
-KCLASSES = ["0", "1", "d-1", "d", "d+1", "b-1", "b", "b+1", "3b"]
+KCLASSES = ["0", "1", "d-1", "d", "d+1", "b-1", "b", "b+1", "2b", "3b"]
 
 
 def klen(cls, bb, d):
-    return {"0": 0, "1": 1, "d-1": d - 1, "d": d, "d+1": d + 1, "b-1": bb - 1, "b": bb, "b+1": bb + 1, "3b": 3 * bb}[cls]
+    return {"0": 0, "1": 1, "d-1": d - 1, "d": d, "d+1": d + 1, "b-1": bb - 1, "b": bb, "b+1": bb + 1, "2b": 2 * bb, "3b": 3 * bb}[cls]
 
 
 _PAIRS = [(h, a, b) for h in range(len(HASHES)) for a in KCLASSES for b in KCLASSES]
@@ -58,9 +58,13 @@ class C13(Machine):
         c0 = pb.client()
         msgs = [rbytes(rng, n) for n in (rng.choice([0, 1, 20]), rng.choice([bb - 1, bb, bb + 9]), rng.choice([3, 2 * bb]))]
         pb.step(c0, k="call", obj=mac, name="__call__", args=[B(rng.choice(msgs))], kw={}, tag="mac", kcls=k0cls, role="mac")
-        nset = rng.choice([1, 1, 2, 3])
+        nset = rng.choice([1, 1, 2, 3, 3, 5])
         last = k0
         keys_seen = [k0]
+        # one run in seven: the caller keeps its key in ONE bytearray that it overwrites before each setkey
+        keybuf = pb.obj({"kind": "value", "val": {"ba": ""}}) if rng.random() < 0.15 else None
+        if keybuf is not None:
+            pb.plan["meta"]["keybuf"] = keybuf
         for i in range(nset):
             cls = forced.pop(0) if forced else rng.choice(KCLASSES)
             n = klen(cls, bb, d)
@@ -75,7 +79,12 @@ class C13(Machine):
                 k = rng.choice(keys_seen)                        # an earlier key comes back
             else:
                 k = rbytes(rng, n)
-            pb.step(c0, k="call", obj=mac, name="setkey", args=[B(k)], kw={}, tag="setkey:" + cls, kcls=cls, role="setkey")
+            if keybuf is not None:
+                pb.step(c0, k="mutate", obj=keybuf, val=B(k), tag="keybuf", role="mut")
+                pb.step(c0, k="call", obj=mac, name="setkey", args=[{"obj": keybuf}], kw={}, tag="setkey:" + cls, kcls=cls,
+                        role="setkey", key_hex=k.hex())
+            else:
+                pb.step(c0, k="call", obj=mac, name="setkey", args=[B(k)], kw={}, tag="setkey:" + cls, kcls=cls, role="setkey")
             last = k
             keys_seen.append(k)
             for _ in range(rng.choice([1, 1, 2])):
@@ -138,7 +147,16 @@ class C13(Machine):
                 if e["out"][0] != "ok":
                     vs.append(vio("setkey_failed", name, s["tag"], s["id"], {"got": e["out"]}))
                     break
-                curk[mo] = s["args"][0]
+                if "key_hex" in s:
+                    # key came through the caller's reusable buffer: it must have been refilled just before
+                    kb = plan["meta"].get("keybuf")
+                    prevm = [q for q in plan["steps"][:plan["steps"].index(s)] if q.get("obj") == kb and q.get("k") == "mutate"]
+                    if not prevm or prevm[-1]["val"]["b"] != s["key_hex"]:
+                        break
+                    curk[mo] = {"b": s["key_hex"]}
+                    probes["setkey_through_reused_bytearray"] = probes.get("setkey_through_reused_bytearray", 0) + 1
+                else:
+                    curk[mo] = s["args"][0]
                 repl[mo] += 1
                 replaced = repl[mo]
                 if prev_cls is not None:
